@@ -152,6 +152,19 @@ def check_pair(ctx, model, nptdms, tmp, data, index, stats, label, marker, cut=F
                         dis.append(dict(what="index only (%s): %s" % (label, d[0]), index=index.hex()))
             finally:
                 f.close()
+        # the index alone handed over as a stream (in-memory): every entry point gives the same objects / properties / types / lengths
+        exp_meta = {k: v for k, v in a[1].items()}
+        exp_meta["chans"] = [({k: v for k, v in c.items() if k != "data"} if isinstance(c, dict) else c) for c in exp_meta["chans"]]
+        for name, fn in (("TdmsFile.read", lambda s_: meta_of(T.read(s_, raw_timestamps=True), False)),
+                         ("TdmsFile.read_metadata", lambda s_: meta_of(T.read_metadata(s_, raw_timestamps=True), False)),
+                         ("TdmsFile.open", lambda s_: meta_of(T.open(s_, raw_timestamps=True), False))):
+            rr = cl.call(lambda: fn(io.BytesIO(index)))
+            stats["index_only"] += 1
+            if rr[0] != "ok":
+                vio.append(Violation("%s of the index file alone given as a stream raised %s (%s)" % (name, rr[2], label), dict(kind="index-only", data=data.hex(), index=index.hex(), op=name)))
+            elif rr[1] != exp_meta:
+                vio.append(Violation("%s of the index file alone given as a stream gives different objects / properties / types / lengths (%s)" % (name, label),
+                                     dict(kind="index-only", data=data.hex(), index=index.hex(), op=name)))
     return dis, vio
 
 
